@@ -410,6 +410,14 @@ func frameworkStorm(ctx *core.Ctx, ci int, provName string, inflight int, entry 
 		}
 		atomic.StoreInt32(req.Request.Context().Value(hdKey{}).(*int32), 1)
 	}))
+	// the same resource on a route that opted out of content encoding (the container switch is on)
+	ws.Route(ws.GET("/optout").ContentEncodingEnabled(false).To(func(req *restful.Request, resp *restful.Response) {
+		id := req.Request.Header.Get("X-Id")
+		resp.Write([]byte("payload-of-" + id + "-"))
+		inHandler.wait()
+		resp.Write([]byte(strings.Repeat(id+";", 50)))
+		atomic.StoreInt32(req.Request.Context().Value(hdKey{}).(*int32), 1)
+	}))
 	ws.Route(ws.POST("/echo").To(func(req *restful.Request, resp *restful.Response) {
 		var d echoDoc
 		err := req.ReadEntity(&d)
@@ -448,6 +456,9 @@ func frameworkStorm(ctx *core.Ctx, ci int, provName string, inflight int, entry 
 				res.rec.failAfter = 12
 			}
 			req := rt.Req{Method: "GET", Path: "/s/get", Hdr: map[string]string{"X-Id": fmt.Sprint(id), "Accept-Encoding": []string{"gzip", "deflate"}[i%2]}}
+			if mode == "route-opt-out" && i%3 != 0 {
+				req.Path = "/s/optout"
+			}
 			var body []byte
 			if mode == "request-bodies" || mode == "broken-bodies" {
 				res.post = true
@@ -731,7 +742,7 @@ func secondClose(ctx *core.Ctx, ci int, provName, coding string) {
 func c13(ctx *core.Ctx) {
 	quietLogs()
 	atomic.StoreInt32(&c13Abort, 0)
-	ctx.Rule("providers {sync.Pool, bounded cache with (writers, readers) capacity (0,0)/(1,1)/(2,1)/(8,3), custom mutex free-list} behind an instrumenting provider (ledger + trip-wire + history). (A) direct storms: g in {2,4,8} goroutines acquire, use and close a writer, then release together through a spin barrier. (B) storms through Dispatch/ServeHTTP with in-flight in {1,2,capacity,capacity+1,16,64,100} requests all held inside the handler at once, modes {normal (release barrier inside the compressor flush), failing underlying writer, panicking handler with recovery, gzip request bodies via ReadEntity read in 7-byte slices, broken request bodies, handler hijacking the connection, handlers that write no body (nothing, bare 204, zero-length Write)}; churn: goroutines acquire/use/release (directly and through Dispatch/ServeHTTP) back to back without barriers, so that acquires overlap releases. (C) second Close. Oracle: no object handed out while held, each acquired object released exactly once, no write through a released writer, every response/request body decodes to its own payload, nobody parked forever in Release/Close (goroutine state), per-object acquire/release history linearizable against a mutex (porcupine). Race detector on. Non-trivial = a storm with >= 2 holders; distinct by (kind, provider, holders, entry, mode, coding).")
+	ctx.Rule("providers {sync.Pool, bounded cache with (writers, readers) capacity (0,0)/(1,1)/(2,1)/(8,3), custom mutex free-list} behind an instrumenting provider (ledger + trip-wire + history). (A) direct storms: g in {2,4,8} goroutines acquire, use and close a writer, then release together through a spin barrier. (B) storms through Dispatch/ServeHTTP with in-flight in {1,2,capacity,capacity+1,16,64,100} requests all held inside the handler at once, modes {normal (release barrier inside the compressor flush), failing underlying writer, panicking handler with recovery, gzip request bodies via ReadEntity read in 7-byte slices, broken request bodies, handler hijacking the connection, handlers that write no body (nothing, bare 204, zero-length Write), a route that opted out of content encoding}; churn: goroutines acquire/use/release (directly and through Dispatch/ServeHTTP) back to back without barriers, so that acquires overlap releases. (C) second Close. Oracle: no object handed out while held, each acquired object released exactly once, no write through a released writer, every response/request body decodes to its own payload, nobody parked forever in Release/Close (goroutine state), per-object acquire/release history linearizable against a mutex (porcupine). Race detector on. Non-trivial = a storm with >= 2 holders; distinct by (kind, provider, holders, entry, mode, coding).")
 	ctx.Assume("the ledger adds after the inner acquire and removes before the inner release: it cannot false-alarm on provider-internal ordering")
 	defer func() {
 		// after an abort goroutines of the unfinished storm may still be serving: the package-wide provider is left alone
@@ -779,7 +790,7 @@ func c13(ctx *core.Ctx) {
 			}
 		}
 	}
-	modes := []string{"normal", "failing-writer", "panic", "request-bodies", "broken-bodies", "hijack", "bodiless"}
+	modes := []string{"normal", "failing-writer", "panic", "request-bodies", "broken-bodies", "hijack", "bodiless", "route-opt-out"}
 	reps := ctx.N(1, 12)
 	for rep := 0; rep < reps; rep++ {
 		for _, prov := range c13Providers {
